@@ -205,14 +205,45 @@ class ModuleInfo(object):
                 if fi is not None and fi.mod.external:
                     fi = None
             if fi is None:
+                # a function / class that moved to another module of the package and is imported back under its name:
+                # the anchor is the definition the name still resolves to
+                other, rest = self._moved(qualname)
+                if other is not None:
+                    try:
+                        return other.func(rest)
+                    except AnalysisError:
+                        pass
                 raise AnalysisError('anchor vanished: function %s::%s' % (self.name, qualname))
         self.repo.functions_touched.add(fi.key)
         return fi
+
+    def _moved(self, qualname, _depth=0):
+        """``name[.rest]`` whose head this module imports from another module of the analysed package:
+        -> (that module, the qualified name there); (None, None) otherwise."""
+        head, _, rest = qualname.partition('.')
+        tgt = self.imports.get(head)
+        if not tgt or tgt[1] is None or _depth > 3:
+            return None, None
+        modname, attr = tgt
+        if not self.repo.is_internal(modname):
+            return None, None
+        try:
+            m = self.repo.mod(modname)
+        except AnalysisError:
+            # ``from .pkg import name`` where name is itself a module
+            return None, None
+        return m, attr + ('.' + rest if rest else '')
 
     def cls(self, qualname):
         try:
             return self.classes[qualname]
         except KeyError:
+            other, rest = self._moved(qualname)
+            if other is not None:
+                try:
+                    return other.cls(rest)
+                except AnalysisError:
+                    pass
             raise AnalysisError('anchor vanished: class %s::%s' % (self.name, qualname))
 
     def enclosing_function(self, node):
